@@ -117,7 +117,7 @@ def gen_mesh_struct(rng, small=False):
     for _ in range(rng.choice([0, 0, 1, 2])):
         nr = rng.choice([1, 2, 3, 4])
         ne = rng.choice([1, 2, 4, 7])
-        ranks = [r for r in range(nr) if rng.random() < 0.8]
+        ranks = list(range(nr))      # every declared rank has its Patch block (class 10 otherwise)
         rng.shuffle(ranks)
         patches = {r: rng.sample(range(ne), rng.randrange(0, ne + 1)) for r in ranks}
         if not any(patches.values()):
@@ -378,6 +378,7 @@ HAZ_NUM = re.compile(r'(?:size|dim|rank|level)\s*=\s*"([^"]*)"')
 def hazardous(text):
     """input-only recognisers of the known-defect classes of FINDINGS_C11.md; returns a K tag ('K' + class digits) or None"""
     ks = set()
+    text = text.translate({7: 32, 8: 32})      # FEAT's white-space set also contains \a and \b
     for m in HAZ_NUM.finditer(text):
         for tok in m.group(1).split():
             mm = re.match(r"^([+-]?)(\d+)", tok)
@@ -415,7 +416,55 @@ def hazardous(text):
         body = rest[gt + 1:e] if gt >= 0 else ""
         if not any(re.match(r"^\s*[+]?\d", l) for l in body.split("\n")):
             ks.add("9")
+    # fewer Patch blocks than declared ranks (class 10, letter A): PartitionParser::close checks nothing
+    for m in re.finditer(r'<Partition\b([^>]*)>', text):
+        mm = re.search(r'size\s*=\s*"\s*[+]?(\d+)', m.group(1))
+        if not mm:
+            continue
+        rest = text[m.end():]
+        e = rest.find("</Partition")
+        body = "" if m.group(1).rstrip().endswith("/") else (rest if e < 0 else rest[:e])
+        ranks = set(re.findall(r'<Patch\b[^>]*?rank\s*=\s*"\s*[+]?(\d+)', body))
+        if len(ranks) < int(mm.group(1)) <= 100000:
+            ks.add("A")
     return ("K" + "".join(sorted(ks))) if ks else None
+
+
+BLOCK_OPEN = {"verts-open": "verts-close", "topo-open": "topo-close", "map-open": "map-close",
+              "attr-open": "attr-close", "patch-open": "patch-close"}
+
+
+def block_ranges(lines):
+    """all child blocks of a printed file: (kind, first, last, tag) where tag is the expectation for the file with the
+    whole block removed: R = the declared size of that dimension is non-zero (or the block is mandatory),
+    A = the reader allows the omission (declared size 0), U = legitimate different file (attribute),
+    KA = class 10 (a Partition with fewer Patch blocks than declared ranks is accepted by the reader)"""
+    out = []
+    for i, (role, t) in enumerate(lines):
+        if role == "patch-closed":
+            out.append(("patch", i, i, "KA"))
+            continue
+        if role not in BLOCK_OPEN:
+            continue
+        j = i
+        while lines[j][0] != BLOCK_OPEN[role]:
+            j += 1
+        # enclosing element
+        k = i
+        while lines[k][0] not in ("mesh-open", "part-open", "ps-open"):
+            k -= 1
+        prole, ptxt = lines[k]
+        tag = "R"
+        if role in ("map-open", "topo-open") and prole == "part-open":
+            d = int(re.search(r'dim\s*=\s*"\s*(\d+)', t).group(1))
+            sizes = [int(x) for x in re.search(r'size\s*=\s*"\s*([^"]*?)\s*"', ptxt).group(1).split()]
+            tag = "R" if (d < len(sizes) and sizes[d] > 0) else "A"
+        elif role == "attr-open":
+            tag = "U"
+        elif role == "patch-open":
+            tag = "KA"
+        out.append((role[:-5], i, j, tag))
+    return out
 
 
 def mutate(rng, L, st):
@@ -423,7 +472,7 @@ def mutate(rng, L, st):
     lines = list(L.l)
     idx_of = lambda roles: [i for i, (r, _) in enumerate(lines) if r in roles]
     kinds = ["truncate", "del-line", "dup-line", "count", "index-bound", "dim", "tokens", "number", "xml", "bytes",
-             "bytes", "tokmut", "attr", "swap-lines", "closed"]
+             "bytes", "tokmut", "attr", "swap-lines", "closed", "del-block", "del-block"]
     kind = rng.choice(kinds)
     tag = "U"
     text = None
@@ -436,6 +485,13 @@ def mutate(rng, L, st):
         # complete up to and including '>' of the root terminator (trailing blanks are irrelevant)
         closing_gt = "\n".join(t for _, t in lines[:rc + 1]).rstrip(" \t\r")
         tag = "R" if cut < len(closing_gt) else "A"
+    elif kind == "del-block":
+        br = block_ranges(lines)
+        if br:
+            bk, i, j, btag = rng.choice(br)
+            del lines[i:j + 1]
+            tag = btag
+            kind = "del-block:" + bk
     elif kind in ("del-line", "dup-line"):
         c = idx_of(CONTENT_ROLES)
         if c:
@@ -959,8 +1015,10 @@ K_KINDS = {
     "9": ("sanitizer-ubsan",),
     "4": ("accepted",),
     "5": ("accepted",),
+    "A": ("accepted",),
 }
-K_ORDER = "1236945"
+K_ORDER = "1236945A"
+K_NAME = {"A": "10"}
 
 
 def first_content_line(text):
@@ -992,7 +1050,7 @@ def oracle_mesh(case, out):
     if cls == "notype":
         return None
     # classes 4/5 are inputs with an out-of-range / syntactically malformed number: they must be rejected
-    if tag == "R" or (tag.startswith("K") and set(tag[1:]) & set("45")):
+    if tag == "R" or (tag.startswith("K") and set(tag[1:]) & set("45A")):
         STATS["must_reject"] += 1
         if cls == "ok":
             return "input violating its declared counts/dimensions/index ranges/syntax was accepted"
@@ -1016,8 +1074,46 @@ def oracle_mesh(case, out):
     why = check_dump_wf(dump)
     if why:
         return why
+    inc = incomplete_input(unhx(h))
+    if inc:
+        if True:
+            return "input violating its declared counts was accepted (zero-filled data stands in for a missing block): " + inc
     if case in EXPECT and dump != EXPECT[case]:
         return "parsed structure differs from the generated one: got %s expected %s" % (dump[:300], EXPECT[case][:300])
+    return None
+
+
+def incomplete_input(text):
+    """independent reading of the *input*: a compound element that lacks a whole child block for a dimension it declares
+    with non-zero size (or a mandatory block).  Returns a description or None.  Only meaningful for accepted files."""
+    text = text.translate({7: 32, 8: 32})      # FEAT's white-space set also contains \a and \b
+    m = re.search(r"<Mesh\b([^>]*)>(.*?)</Mesh\s*>", text, re.S)
+    if m:
+        mm = re.search(r'size\s*=\s*"\s*([^"]*?)\s*"', m.group(1))
+        if mm:
+            dim = len(mm.group(1).split()) - 1
+            if not re.search(r"<Vertices\b", m.group(2)):
+                return "Mesh without Vertices block"
+            dims = set(int(x) for x in re.findall(r'<Topology\b[^>]*?dim\s*=\s*"\s*[+]?(\d+)', m.group(2)))
+            for d in range(1, dim + 1):
+                if d not in dims:
+                    return "Mesh without Topology block of dimension %d" % d
+    for m in re.finditer(r"<MeshPart\b([^>]*)>(.*?)</MeshPart\s*>", text, re.S):
+        mm = re.search(r'size\s*=\s*"\s*([^"]*?)\s*"', m.group(1))
+        if not mm:
+            continue
+        sizes = []
+        for tk in mm.group(1).split():
+            x = re.match(r"[+]?(\d+)", tk)
+            sizes.append(int(x.group(1)) if x else 0)
+        mdims = set(int(x) for x in re.findall(r'<Mapping\b[^>]*?dim\s*=\s*"\s*[+]?(\d+)', m.group(2)))
+        tdims = set(int(x) for x in re.findall(r'<Topology\b[^>]*?dim\s*=\s*"\s*[+]?(\d+)', m.group(2)))
+        full = re.search(r'topology\s*=\s*"\s*full', m.group(1)) is not None
+        for d, n in enumerate(sizes):
+            if n > 0 and d not in mdims:
+                return "MeshPart declares %d entities of dimension %d but has no Mapping block for it" % (n, d)
+            if full and d >= 1 and n > 0 and d not in tdims:
+                return "MeshPart with full topology declares %d entities of dimension %d but has no Topology block" % (n, d)
     return None
 
 
@@ -1267,7 +1363,7 @@ def signature(case, out, why):
         kind = failure_kind(out, why)
         for d in K_ORDER:
             if d in t[1][1:] and kind in K_KINDS[d]:
-                return "c11-edge:K" + d
+                return "c11-edge:K" + K_NAME.get(d, d)
     if op == "ini" and why and why.startswith("property map second generation differs [key"):
         return "c11-edge:K7"
     if op == "graph" and why and why.startswith("re-serialising") and case.split()[2] == "0":
@@ -1280,7 +1376,7 @@ def model_filter(case):
     if t[0] == "mesh":
         # known-defect classes end in crashes / runtime-decided behaviour on the implementation side; charts are
         # not modelled (tier B)
-        if t[1].startswith("K") and (set(t[1][1:]) - set("45")):
+        if t[1].startswith("K") and (set(t[1][1:]) - set("45A")):
             return False
         if "<Chart" in unhx(t[2]):
             return False
@@ -1332,6 +1428,66 @@ def corpus_cases():
     return cases
 
 
+
+
+def sweep_struct(shape, dim, zero_dim=None, small=False):
+    """fixed mesh node: root mesh, part `pf` with full topology, part `pn` without, one attribute each, one partition;
+    every declared size is non-zero except (optionally) dimension `zero_dim` of both parts"""
+    nv = 4
+    sizes = [nv] + [1 if small else 2] * dim
+    tup = lambda d, k: tuple((k + j) % nv for j in range(nverts(shape, d)))
+    mesh = {"shape": shape, "dim": dim, "sizes": sizes, "verts": [[Fraction(i + j, 2) for j in range(dim)] for i in range(nv)],
+            "topo": {d: [tup(d, k) for k in range(sizes[d])] for d in range(1, dim + 1)}}
+    parts = []
+    for nm, tt in (("pf", "full"), ("pn", "none")):
+        psz = [1] * (dim + 1) if small else [3] + [2] * dim
+        if zero_dim is not None:
+            psz[zero_dim] = 0
+            if tt == "full":
+                # keep the full-topology part free of defect class 6 (interior zero below a non-zero count)
+                for d in range(max(zero_dim, 1) + 1, dim + 1):
+                    psz[d] = 0
+                if zero_dim == 0:
+                    psz = [0] * (dim + 1)
+        p = {"name": nm, "topo_type": tt, "nsz": dim + 1, "sizes": psz,
+             "maps": {d: [(d + i) % 4 for i in range(psz[d])] for d in range(dim + 1)}, "topo": {},
+             "attrs": [{"name": "a", "dim": 2, "vals": [[Fraction(i), Fraction(1, 3)] for i in range(psz[0])]}]}
+        if tt == "full":
+            p["topo"] = {d: [tuple((k + j) % psz[0] for j in range(nverts(shape, d))) for k in range(psz[d])]
+                         for d in range(1, dim + 1)}
+        parts.append(p)
+    ps = [{"name": "p", "prio": 1, "level": 0, "nr": 3, "ne": 4, "ranks": [0, 1, 2], "patches": {0: [0, 1], 1: [2], 2: [3]}}]
+    return {"mesh": mesh, "shape": shape, "dim": dim, "parts": parts, "partitions": ps}
+
+
+def sweep_cases():
+    """deterministic sweep: for every shape, every child block (Vertices | Topology d | Mapping d | Attribute | Patch r) of
+    every compound element is removed as a whole, once with all declared sizes non-zero (must reject) and once with the
+    size of that dimension declared zero and the block absent (the reader allows the omission: must accept)"""
+    rng = random.Random(0)
+    cases = []
+    for shape, dim, small in [(sh, d, sm) for sh, d in SHAPES for sm in (False, True)]:
+        st = sweep_struct(shape, dim, small=small)
+        L = print_mesh_file(rng, st, fancy=False)
+        base = "mesh A " + hx(L.text())
+        EXPECT[base] = expected_dump(st)
+        cases.append(base)
+        for bk, i, j, tag in block_ranges(L.l):
+            lines = L.l[:i] + L.l[j + 1:]
+            text = "\n".join(t for _, t in lines) + "\n"
+            hz = hazardous(text)
+            if hz:
+                tag = "K" + "".join(sorted(set(hz[1:]) | set(tag[1:] if tag.startswith("K") else "")))
+            case = "mesh %s %s" % (tag, hx(text))
+            KIND[case] = "sweep:" + bk
+            cases.append(case)
+        for zd in range(dim + 1):
+            st0 = sweep_struct(shape, dim, zero_dim=zd, small=small)
+            L0 = print_mesh_file(rng, st0, fancy=False)     # the printer omits Mapping/Topology blocks of size 0
+            c0 = "mesh %s %s" % (hazardous(L0.text()) or "A", hx(L0.text()))
+            EXPECT[c0] = expected_dump(st0)
+            cases.append(c0)
+    return cases
 
 
 def shipped_cases(limit_bytes):
@@ -1425,7 +1581,7 @@ def main(argv):
     mk = lambda name, cases, model=True: vlib.Stream(
         name, cases, [binary], drv if model else None, oracle=oracle, nontrivial=nontrivial, canon=canon, env=env,
         describe=describe, signature=signature, model_filter=model_filter)
-    streams = [mk("corpus", corpus_cases()), mk("mesh-valid", valid), mk("mesh-malformed", malformed),
+    streams = [mk("corpus", corpus_cases()), mk("block-sweep", sweep_cases()), mk("mesh-valid", valid), mk("mesh-malformed", malformed),
                mk("ini", ini), mk("xml-scan", scan), mk("graph-bytes", graphs), mk("shipped-meshes", shipped),
                mk("mesh-double-precision", dbl, model=False)]
     rule = ("mesh files printed from random mesh nodes (5 shape types, 0-3 mesh parts with mappings/topology/attributes, "
